@@ -140,7 +140,7 @@ def parse_coverage(out):
     return cov
 
 
-def run_mc(module, cfg, workers=4, timeout=600, coverage=True, name=None, env_extra=None, expect_ok=True, simulate=None, depth=None):
+def run_mc(module, cfg, workers=4, timeout=600, coverage=True, name=None, env_extra=None, expect_ok=True, simulate=None, depth=None, to_file=None):
     """Exhaustive TLC run of a bounded instance.  Returns dict(ok, states, transitions, coverage, out)."""
     name = name or module
     md = os.path.join(WORK, f"tlc_{name}_{os.getpid()}")      # unique per process: checks may run concurrently
@@ -154,13 +154,22 @@ def run_mc(module, cfg, workers=4, timeout=600, coverage=True, name=None, env_ex
         env.update(env_extra)
     t0 = time.time()
     try:
-        p = subprocess.run(cmd, cwd=SPEC, stdout=subprocess.PIPE, stderr=subprocess.STDOUT, text=True,
-                           timeout=timeout, env=env)
+        if to_file:
+            # behaviour exports can be gigabytes: stream to a file, keep only the tail (statistics) in memory
+            with open(to_file, "w") as fo:
+                p = subprocess.run(cmd, cwd=SPEC, stdout=fo, stderr=subprocess.STDOUT, timeout=timeout, env=env)
+            sz = os.path.getsize(to_file)
+            with open(to_file, "rb") as fi:
+                fi.seek(max(0, sz - 200000))
+                out = fi.read().decode("utf-8", "replace")
+        else:
+            p = subprocess.run(cmd, cwd=SPEC, stdout=subprocess.PIPE, stderr=subprocess.STDOUT, text=True,
+                               timeout=timeout, env=env)
+            out = p.stdout
     except subprocess.TimeoutExpired:
         raise ToolError(f"TLC timed out on {module}/{cfg}")
     finally:
         shutil.rmtree(md, ignore_errors=True)
-    out = p.stdout
     res = parse_tlc_stats(out)
     res["out"] = out
     res["wall_s"] = time.time() - t0
